@@ -361,7 +361,7 @@ def place_crowd(mjm, info, rng, extent=0.35, p_axis=0.2, z0=0.15):
   for i in range(nb):
     p = rng.uniform(-extent, extent, size=3)
     p[2] = z0 + abs(p[2])
-    if c is not None and rng.random() < 0.15:
+    if c is not None and rng.random() < 0.05:
       p = c.copy()  # coincident centres (projection ties in the sweep)
     c = p
     q = axis_quat(rng) if rng.random() < p_axis else rquat(rng)
